@@ -23,6 +23,10 @@ type PropConfig struct {
 	Gen       func(e *Engine, ld *Loaded) ([]FuncTarget, error) // contracts generated from the code at check time
 	Extra     func(ck *Checker, rep *Report, opts *Options) []*Goal
 	Post      func(ck *Checker, rep *Report, opts *Options)
+	// Level/Explanation: evidence level when the property is not decided by proof
+	// (default "proof"); "other" needs an explanation.
+	Level       string
+	Explanation string
 }
 
 type Options struct {
@@ -258,6 +262,28 @@ func Finish(rep *Report, opts *Options) int {
 				kf = k
 			}
 		}
+		inputs := bf.Inputs
+		if kf != nil && kf.InputsFile != "" {
+			listed := map[string]bool{}
+			if b, err := os.ReadFile(filepath.Join(opts.VerifDir, kf.InputsFile)); err == nil {
+				for _, l := range strings.Split(string(b), "\n") {
+					listed[strings.TrimSpace(l)] = true
+				}
+			}
+			var fresh []string
+			for _, in := range inputs {
+				if !listed[strings.TrimSpace(in)] {
+					fresh = append(fresh, in)
+				}
+			}
+			fmt.Printf("KNOWN-FINDING: property=%s %s: %s (%d of %d failing inputs listed in %s)\n", id, bf.Name, kf.What, len(inputs)-len(fresh), len(inputs), kf.InputsFile)
+			knownHit = append(knownHit, map[string]interface{}{"obligation": bf.Name, "what": kf.What, "status": "failed (bounded)", "listed_failing_inputs": len(inputs) - len(fresh)})
+			if len(fresh) == 0 {
+				continue
+			}
+			inputs = fresh
+			kf = nil
+		}
 		if kf != nil {
 			fmt.Printf("KNOWN-FINDING: property=%s %s: %s\n", id, bf.Name, kf.What)
 			knownHit = append(knownHit, map[string]interface{}{"obligation": bf.Name, "what": kf.What, "status": "failed (bounded)"})
@@ -265,7 +291,7 @@ func Finish(rep *Report, opts *Options) int {
 		}
 		violations++
 		path := filepath.Join(opts.VerifDir, "out", "replay", id+"-"+mangle(bf.Name)+".json")
-		doc := map[string]interface{}{"property": id, "obligation": bf.Name, "status": "failing inputs found by bounded execution of the real function", "failing_inputs": bf.Inputs}
+		doc := map[string]interface{}{"property": id, "obligation": bf.Name, "status": "failing inputs found by bounded execution of the real function", "failing_inputs": inputs}
 		bb, _ := json.MarshalIndent(doc, "", " ")
 		os.WriteFile(path, bb, 0o644)
 		fmt.Printf("VIOLATION property=%s replay=%s obligation=%s status=failed replayed=confirmed-on-real-code\n", id, path, bf.Name)
@@ -291,12 +317,17 @@ func Finish(rep *Report, opts *Options) int {
 	if len(samples) == 0 {
 		samples = append(samples, "none")
 	}
+	level, explanation := "proof", "contract-based deductive verification: every obligation generated from the contracts on the real functions is discharged by an SMT solver; bounded stand-ins (if any) are listed under bounded and are not counted"
+	if pc := PropConfigs[id]; pc != nil && pc.Level != "" {
+		level, explanation = pc.Level, pc.Explanation
+	}
 	ev := map[string]interface{}{
 		"property_id": id,
 		"tier":        rep.Tier,
 		"seed":        rep.Seed,
-		"level":       "proof",
+		"level":       level,
 		"coverage": map[string]interface{}{
+			"explanation":               explanation,
 			"obligations":               nProof,
 			"discharged":                nDischarged,
 			"checker_cmd":               fmt.Sprintf("/verif/check %s --tier %s", id, rep.Tier),
